@@ -235,3 +235,29 @@ Theorem C08_map2_nk_parked_remove_example :
     m2_state_entries sC 8 4 = {[20 := {[2 := 2]}]}.
 Proof. exact map2_nk_example_closed. Qed.
 Print Assumptions C08_map2_nk_parked_remove_example.
+
+(** Map<K, Orswot> WITH key removes and merges, in the fragment the known findings leave: members are added under keys and keys are removed (no nested remove: T3), and every key that some key remove names is updated at most once by each actor ([km_once]: T2 needs two updates of one actor): per-actor delivery suffices for the complete state, also across merges - a key remove that overtakes the updates it observed is
+    parked, travels inside merged states, and takes effect at a holder of the updates (closed example) (proofs/MapOrswotKM.v) *)
+From Crdt Require Import model.Orswot model.Map spec.System spec.OrswotSpec spec.OrswotSystem spec.MapSpec spec.MapSystem spec.MapOrswotSpec spec.MapOrswotKM proofs.MapOrswotKM proofs.MapOrswotKMCor.
+Theorem C08_mapor_km_any_discipline (adm : adm_t (mop oop)) (mg : Prop) (H : list (oprec (mop oop))) (s : cmap orswot) (K : gset nat) :
+  mohist_ok_km H -> km_once H -> (forall K i, adm H K i -> adm_per_actor H K i) ->
+  reach mnew (mapply orswot_valops) (mmerge orswot_valops) adm mg H s K -> s = mapor_spec_km H K.
+Proof. exact (mapor_refine_km_any adm mg H s K). Qed.
+Print Assumptions C08_mapor_km_any_discipline.
+
+Theorem C08_mapor_km_parked_key_remove_example :
+  exists (H : list (oprec (mop oop))) (sP sM sR sC : cmap orswot) (KP KM KR KC : gset nat),
+    mohist_ok_km H /\ km_once H /\ length H = 5%nat /\
+    moreach_km H sP KP /\ mdeferred sP = {[ ({[1 := 1]} : gmap N N) := ({[7]} : gset N) ]} /\
+    moreach_km H sM KM /\ mdeferred sM = {[ ({[1 := 1]} : gmap N N) := ({[7]} : gset N) ]} /\
+    mo_state_entries sM 7 = {[20 := {[2 := 1]}]} /\
+    moreach_km H sR KR /\ mo_state_entries sR 7 = {[10 := {[1 := 1]}; 20 := {[2 := 1]}]} /\
+    moreach_km H sC KC /\ KC = KR ∪ KM /\
+    mmerge orswot_valops sR sM = sC /\ mmerge orswot_valops sM sR = sC /\
+    mmerge orswot_valops sR sM = mapor_spec_km H KC /\
+    mapor_km_ok H KC (mmerge orswot_valops sM sR) = true /\ mapor_km_ok H KM sM = true /\
+    mo_state_entries sC 7 = {[20 := {[2 := 1]}]} /\
+    mo_state_entries sC 8 = {[30 := {[1 := 2]}; 31 := {[1 := 3]}]} /\
+    mdeferred sC = ∅.
+Proof. exact mapor_km_example_closed. Qed.
+Print Assumptions C08_mapor_km_parked_key_remove_example.
